@@ -104,12 +104,37 @@ def build_harness():
 
 # ---------------------------------------------------------------- running histories
 TIERS = {
-    # histories, operations per history
-    "quick": dict(n=1600, ops=50),
-    "thorough": dict(n=4800, ops=60),
+    # histories, operations per history; fullapp: histories also executed through the application (signed
+    # transactions, FinalizeBlock/Commit) and compared with the shortcut path, see harness/fullapp.go
+    "quick": dict(n=1600, ops=50, fullapp=64),
+    "thorough": dict(n=4800, ops=60, fullapp=1600),
 }
 
+def run_fullapp_shard(args):
+    """the full-application path: differences between the shortcut and the application become MISMATCH lines"""
+    idx, first, n, ops, seed, outdir = args
+    logf = os.path.join(outdir, "shard%02d.log" % idx)
+    outf = os.path.join(outdir, "shard%02d.out" % idx)
+    rc, out = sh("timeout 3000 %s -fullapp -n %d -ops %d -seed %d -first %d -out %s > /dev/null 2>&1" % (
+        os.path.join(BUILD, "harness"), n, ops, seed, first, logf), cwd=BUILD)
+    if rc != 0:
+        return idx, "harness -fullapp failed rc=%d" % rc
+    summ = dict(fullapp_histories=0, fullapp_steps=0, fullapp_transactions=0, fullapp_accepted=0, fullapp_foreign_signatures=0, fullapp_blocks=0, mismatches=0)
+    with open(outf, "w") as o:
+        for l in open(logf, errors="replace"):
+            if l.startswith("FULLDIFF"):
+                o.write("MISMATCH " + l[len("FULLDIFF "):])
+                summ["mismatches"] += 1
+            elif l.startswith("FULLSUMMARY"):
+                d = parse_kv_line(l)
+                for k in ("histories", "steps", "transactions", "accepted", "foreign_signatures", "blocks"):
+                    summ["fullapp_" + k] += int(d.get(k, 0))
+        o.write("SUMMARY " + json.dumps(summ) + "\n")
+    return idx, None
+
 def run_shard(args):
+    if len(args) == 6:
+        return run_fullapp_shard(args)
     idx, first, n, ops, seed, outdir, replay = args
     logf = os.path.join(outdir, "shard%02d.log" % idx)
     outf = os.path.join(outdir, "shard%02d.out" % idx)
@@ -152,6 +177,11 @@ def run_histories(tier, seed, outdir, extra=False):
         jobs.append((99, 100000, 0, 0, seed, outdir, cf))
     for i in range(NPROC):
         jobs.append((i, i * per + (1000000 if extra else 0), per, cfg["ops"], seed + (7777 if extra else 0), outdir, None))
+    nf = cfg.get("fullapp", 0) * (2 if extra else 1)
+    if nf:
+        perf = (nf + 7) // 8
+        for i in range(8):
+            jobs.append((80 + i, 2000000 + i * perf + (1000000 if extra else 0), perf, 40, seed + (7777 if extra else 0), outdir))
     t = time.time()
     with Pool(NPROC) as p:
         res = p.map(run_shard, jobs)
